@@ -33,7 +33,8 @@ def norm(e):
         if e[1] in PURE_LEN and len(e[3]) == 1:
             return ("len", norm(e[3][0]))
         if e[1] in ("<Vec<T, A> as Deref>::deref", "<String as Deref>::deref", "<Bytes as Deref>::deref",
-                    "[T; N]::as_slice", "String::as_bytes", "str::as_bytes", "String::as_str"):
+                    "[T; N]::as_slice", "String::as_bytes", "str::as_bytes", "String::as_str", "Vec<T, A>::as_slice",
+                    "<Vec<T, A> as AsRef<[T]>>::as_ref", "<Vec<T, A> as Borrow<[T]>>::borrow"):
             return norm(e[3][0])
         return ("call", e[1], tuple(norm(a) for a in e[3]))
     if k == "len":
